@@ -71,7 +71,7 @@ impl Source for TestSource {
 
 /// Upper bound on what the harness is willing to materialise for one stream (a defective encoder can
 /// emit gigabyte frames: such a witness must be reported, not suffered).
-pub const MAX_STREAM_BYTES: usize = 96 << 20;
+pub const MAX_STREAM_BYTES: usize = 8 << 20;
 
 /// A sink that refuses to grow beyond `MAX_STREAM_BYTES`.
 pub struct CapSink {
@@ -342,7 +342,16 @@ pub fn run_record(id: &str, cfg: &Cfg, pcm: &Pcm, mode: &str, src: &str, with_or
         }
         let r = encode(&c2, &p2, &m2, &s2);
         let log = if with_oracle_log { flacenc::verif_hooks::oracle_take() } else { vec![] };
-        r.map(|stream| {
+        r.and_then(|stream| {
+            // C08 on the whole stream: the reported count against what is really written (under the cap)
+            let count = stream.count_bits();
+            let mut sink = CapSink { inner: ByteSink::new() };
+            if stream.write(&mut sink).is_err() {
+                return Err(format!("giant:{count}"));
+            }
+            Ok(stream)
+        })
+        .map(|stream| {
             let bytes = stream_bytes(&stream);
             let verify_ok = stream.verify().is_ok();
             let count = stream.count_bits();
@@ -368,8 +377,12 @@ pub fn run_record(id: &str, cfg: &Cfg, pcm: &Pcm, mode: &str, src: &str, with_or
         })
     });
     match res {
-        Err(m) => format!("{head} impl=panic msg={m} o_c01=fail:panic o_c03=fail:panic o_c04=fail:panic o_c09=fail:panic o_c14=fail:panic o_c15=fail:panic"),
-        Ok(Err(e)) => format!("{head} impl=err:{e} o_c01=fail:error_{e} o_c03=fail:error o_c04=fail:error o_c09=fail:error o_c14=fail:error o_c15=fail:error"),
+        Err(m) => format!("{head} impl=panic msg={m} o_c01=fail:panic o_c03=fail:panic o_c04=fail:panic o_c08=fail:panic o_c09=fail:panic o_c14=fail:panic o_c15=fail:panic"),
+        Ok(Err(e)) if e.starts_with("giant:") => format!(
+            "{head} impl=err:giant o_c01=fail:stream_exceeds_{0}_MiB o_c03=fail:giant o_c04=fail:giant o_c08=fail:count_bits_{1}_but_more_than_{0}_MiB_written o_c09=fail:stream_exceeds_{0}_MiB_for_{2}_input_samples o_c14=fail:giant o_c15=fail:giant",
+            MAX_STREAM_BYTES >> 20, &e[6..], pcm.data.len()
+        ),
+        Ok(Err(e)) => format!("{head} impl=err:{e} o_c01=fail:error_{e} o_c03=fail:error o_c04=fail:error o_c08=fail:error o_c09=fail:error o_c14=fail:error o_c15=fail:error"),
         Ok(Ok((bytes, verify_ok, count, (o1, o3, o4, o9), log, o14, o15))) => {
             let mut olog = String::new();
             for ev in &log {
@@ -387,8 +400,8 @@ pub fn run_record(id: &str, cfg: &Cfg, pcm: &Pcm, mode: &str, src: &str, with_or
             }
             let olog = if with_oracle_log { format!(" olog={olog}") } else { String::new() };
             format!(
-                "{head} impl=ok impl_verify={} impl_count={} impl_bytes={}{olog} o_c01={o1} o_c03={o3} o_c04={o4} o_c09={o9} o_c14={o14} o_c15={o15}",
-                verify_ok as u8, count, hex(&bytes)
+                "{head} impl=ok impl_verify={} impl_count={} impl_bytes={}{olog} o_c01={o1} o_c03={o3} o_c04={o4} o_c08={} o_c09={o9} o_c14={o14} o_c15={o15}",
+                verify_ok as u8, count, hex(&bytes), if count == 8 * bytes.len() { "ok".to_string() } else { format!("fail:count_{}_written_{}", count, 8 * bytes.len()) }
             )
         }
     }
